@@ -1560,8 +1560,18 @@ JanetFiber *janet_loop1(void) {
             }
         } else if (sig == JANET_SIGNAL_OK || (task.fiber->flags & (1 << sig))) {
             JanetChannel *chan = janet_channel_unwrap(sv);
-            janet_channel_push(chan, make_supervisor_event(janet_signal_names[sig],
-                               task.fiber, chan->is_threaded), 2);
+            janet_chan_lock(chan);
+            if (chan->closed) {
+                /* Nobody can take the event any more, and a push to a closed channel panics: outside of any
+                 * fiber that ends the thread. Treat the fiber as unsupervised. */
+                janet_chan_unlock(chan);
+                if (!is_suspended) {
+                    janet_stacktrace_ext(task.fiber, res, "");
+                }
+            } else {
+                janet_channel_push_with_lock(chan, make_supervisor_event(janet_signal_names[sig],
+                                             task.fiber, chan->is_threaded), 2);
+            }
         } else if (!is_suspended) {
             janet_stacktrace_ext(task.fiber, res, "");
         }
